@@ -96,8 +96,26 @@ def _batch(kind, name, dt, aname, idx):
 BIG_SHAPES = {"big_linear": (301, 768), "big_lin_lin": (2050, 512), "big_conv": (3, 8, 67, 67)}
 
 
+def _long_seqs(tier):
+    """Depth ladder: fixed long batch sequences (no 'qmax' batches: an average that hits exactly 1.0 is the known finding F-C12-1)."""
+    kinds = [k for k in KINDS if k != "qmax"]
+    out = []
+    for p, (L, split) in enumerate([(24, None), (40, 13), (40, 27)] if tier == "quick" else [(24, None), (40, 13), (40, 27), (120, None), (120, 61), (300, 150)]):
+        x = 4242 + 977 * p
+        seq = []
+        for _ in range(L):
+            x = (x * 1103515245 + 12345) % (1 << 31)
+            seq.append(kinds[(x >> 8) % len(kinds)])
+        out.append([seq, split])
+    return out
+
+
 def plan(tier, seed):
     tasks = []
+    for name in ("linear", "lin_ln_lin", "lin_relu_lin", "lin_idiv_lin", "conv"):
+        for aname in num.Q8:
+            for mom in (0.5, 0.9) if tier == "quick" else MOMENTA:
+                tasks.append({"model": name, "a": aname, "momentum": mom, "streamline": False, "dt": "float32", "tier": tier, "seqs": _long_seqs(tier)})
     for name in BIG_SHAPES:
         for aname in num.Q8:
             for mom in ((0.5,) if tier == "quick" else (0.0, 0.5, 0.9)):
@@ -217,7 +235,9 @@ def _run_history(task, seq, split, out, only=False):
                 continue
             if got_t.dtype != dt:
                 out["violations"].append(violation(PID, case, dict(f, sub="scale_dtype"), f"scale_dtype: {which} of module {n} is {got_t.dtype} in a {dtname} model"))
-            tol = 32 * u * abs(want) + 4 * num.QSUB[dtname]
+            # rounding of the running average in the buffer dtype accumulates geometrically: at most u/(1-m) (or u per step)
+            drift = 0 if len(seq) <= 4 else 2 * min(len(seq), 1.0 / max(1.0 - mom, 1e-3))
+            tol = (32 + drift) * u * abs(want) + 4 * num.QSUB[dtname]
             import math
 
             if not math.isfinite(want):
@@ -249,7 +269,11 @@ def _run_history(task, seq, split, out, only=False):
             out["violations"].append(violation(PID, case, dict(fields, sub="raised"), f"raised: calibrating the last module alone raised {type(e).__name__}: {str(e)[:160]}"))
 
 
-def _histories(tier, dtname="float32", kinds=None, L=None):
+def _histories(tier, dtname="float32", kinds=None, L=None, seqs=None):
+    if seqs:
+        for seq, split in seqs:
+            yield tuple(seq), split
+        return
     L = L or (3 if (tier == "quick" or dtname != "float32") else 4)
     for n in range(1, L + 1):
         for seq in itertools.product(kinds or KINDS, repeat=n):
@@ -261,7 +285,7 @@ def _histories(tier, dtname="float32", kinds=None, L=None):
 def _run(task):
     out = {"evals": 0, "nontrivial": 0, "points": 0, "calls": 0, "violations": [], "samples": [], "counters": {}}
     only = task.get("only")
-    for seq, split in _histories(task["tier"], task["dt"], task.get("kinds"), task.get("L")):
+    for seq, split in _histories(task["tier"], task["dt"], task.get("kinds"), task.get("L"), task.get("seqs")):
         if only and only != [list(seq), split]:
             continue
         out["evals"] += 1
